@@ -96,7 +96,7 @@ func cmdMinimise(in, out, class string) int {
 		drop := map[stepRef]bool{}
 		for bi, b := range cur.Blocks {
 			for si, st := range b.Steps {
-				if st.Kind == "crash" || st.Kind == "dropped" {
+				if st.Kind == "crash" || st.Kind == "crash_end" || st.Kind == "dropped" {
 					drop[stepRef{bi, si}] = true
 				}
 			}
